@@ -165,8 +165,69 @@ def _order(b, items):
     return sorted(items, key=lambda it: depth(it[0]))
 
 
+def _str_consts(x, acc):
+    if isinstance(x, dict):
+        c = x.get('const')
+        if isinstance(c, dict):
+            v = c.get('val') or {}
+            if isinstance(v, dict) and 'str' in v:
+                acc.add(v['str'])
+        for y in x.values():
+            _str_consts(y, acc)
+    elif isinstance(x, list):
+        for y in x:
+            _str_consts(y, acc)
+
+
+def gen_names(ctx, f):
+    """GEN-NAMES: the fullname a derived type defines is `<namespace>.<name>` - the namespace and name of its
+    `#[avro_schema(..)]` attribute when given (an empty namespace means no dot at all), `<module path with dots>.<type>`
+    otherwise; the named sub-nodes it owns are `<that fullname>.<variant or field>`.  The expected strings are computed
+    from the attributes in /verif/corpus/src/lib.rs (the corpus is this repository's own file), the found ones are the
+    string constants of the expansion."""
+    import os, re
+    src = open(os.path.join(os.path.dirname(os.path.dirname(os.path.dirname(os.path.abspath(__file__)))), 'corpus', 'src', 'lib.rs')).read()
+    attrs = {}
+    for m in re.finditer(r'((?:#\[[^\]]*\]\s*)+)(?:pub\s+)?(struct|enum)\s+(\w+)', src):
+        ns = re.search(r'namespace\s*=\s*"([^"]*)"', m.group(1))
+        nm = re.search(r'[(,]\s*name\s*=\s*"([^"]*)"', m.group(1))
+        if 'BuildSchema' in m.group(1):
+            attrs[m.group(3)] = (ns.group(1) if ns else None, nm.group(1) if nm else m.group(3), m.group(2))
+    adts = {a['path']: a for a in f.j['adts']}
+    n = 0
+    for im in sorted([i for i in f.j['impls'] if i.get('trait') == BS and i.get('self_adt') in adts], key=lambda i: i['self_adt']):
+        T = im['self_adt']
+        short = T.rsplit('::', 1)[-1]
+        b = f.bodies.get(im['id'] + '::append_schema')
+        if b is None or short not in attrs:
+            continue
+        ns, name, kind = attrs[short]
+        acc = set()
+        _str_consts(b.j['blocks'], acc)
+        for c in f.body_list:
+            if c.id.startswith(b.id + '::{closure#'):
+                _str_consts(c.j['blocks'], acc)
+        named = {x for x in acc if name in x.split('.')}
+        if not named:
+            continue        # forwards to another type's node (transparent newtypes, pointers): defines no name of its own
+        n += 1
+        if ns is None:
+            ok = all(x.startswith('.' + name) for x in named)
+            want = '<module path>.%s[.<sub-node>]' % name
+        elif ns == '':
+            ok = all(x == name or x.startswith(name + '.') for x in named)
+            want = '%s[.<sub-node>]' % name
+        else:
+            full = ns + '.' + name
+            ok = all(x == full or x.startswith(full + '.') for x in named)
+            want = '%s[.<sub-node>]' % full
+        ctx.ob('GEN-NAMES', short, ok, short_loc(adts[T]['span']), 'name constants of the expansion %s (expected form: %s)' % (sorted(named), want))
+    ctx.floor('GEN-NAMES', 'corpus types that define a name', n, 12)
+
+
 def run(ctx):
     f = ctx.corpus()
+    gen_names(ctx, f)
     adts = {a['path']: a for a in f.j['adts']}
     impls = [i for i in f.j['impls'] if i.get('trait') == BS and i.get('self_adt') in adts]
     ctx.floor('GEN-FIELDS', 'corpus types with a derived BuildSchema impl', len(impls), 21)
